@@ -361,6 +361,17 @@ func (w *world) mirror(id int, init [][]interface{}) {
 	}
 }
 
+// rawFile is how the compute unit's own units (scalar / vector load return,
+// dispatcher, ISA debugger) reach a wavefront's registers: the register file
+// of the wavefront's SIMD with the wavefront's offset.
+func (w *world) rawFile(op *Op) (cu.RegisterFile, int) {
+	tw := w.twf[op.W]
+	if op.K == "v" {
+		return w.cu.VRegFile[tw.SIMDID], tw.VRegOffset
+	}
+	return w.cu.SRegFile, tw.SRegOffset
+}
+
 func (w *world) write(s *side, op *Op) {
 	st, ok := s.wfs[op.W]
 	if !ok {
@@ -368,8 +379,15 @@ func (w *world) write(s *side, op *Op) {
 	}
 	o := operand(op)
 	d := bytesOf(op.D)
+	api := op.API
+	if api == "WF" && s == w.emu {
+		api = "WB" // the emulator has no separate register-file interface
+	}
 	msg := guarded(func() {
-		switch op.API {
+		switch api {
+		case "WF":
+			rf, off := w.rawFile(op)
+			rf.Write(cu.RegisterAccess{Reg: o.Register, RegCount: op.C, LaneID: op.Lane, WaveOffset: off, Data: d})
 		case "WB":
 			st.WriteOperandBytes(o, op.Lane, d)
 		case "WO":
@@ -386,6 +404,7 @@ func (w *world) write(s *side, op *Op) {
 		}
 	})
 	f := opFields(op)
+	f["api"] = api
 	f["d"] = op.D
 	w.emitAfter(s, "W", f, msg, 0)
 }
@@ -397,10 +416,21 @@ func (w *world) read(s *side, op *Op) {
 	}
 	o := operand(op)
 	var a []byte
+	api, n := op.API, op.N
+	if api == "RF" {
+		n = 4 * len(op.D) // RF carries the operand width in dwords as len(d)
+		if s == w.emu {
+			api = "RB"
+		}
+	}
 	msg := guarded(func() {
-		switch op.API {
+		switch api {
+		case "RF":
+			rf, off := w.rawFile(op)
+			a = make([]byte, n)
+			rf.Read(cu.RegisterAccess{Reg: o.Register, RegCount: op.C, LaneID: op.Lane, WaveOffset: off, Data: a})
 		case "RB":
-			a = append([]byte{}, st.ReadOperandBytes(o, op.Lane, op.N)...)
+			a = append([]byte{}, st.ReadOperandBytes(o, op.Lane, n)...)
 		case "RO":
 			a = le64(st.ReadOperand(o, op.Lane))
 		case "GET":
@@ -415,7 +445,8 @@ func (w *world) read(s *side, op *Op) {
 		}
 	})
 	f := opFields(op)
-	f["n"] = op.N
+	f["api"] = api
+	f["n"] = n
 	f["a"] = ints(a)
 	w.emitAfter(s, "R", f, msg, 0)
 }
